@@ -6,7 +6,7 @@ CONSTANTS
   NNames = 3
   NTexts = 3
   GenDepth = 30
-  Ops = {"mkbundle","mkcat","post","delart","delitem","get","list","cats","reload","setname"}
+  Ops = {"mkbundle","mkcat","post","delart","delitem","get","list","cats","reload","setname","stale"}
   Thin = TRUE
 INIT Init
 NEXT Next
